@@ -185,6 +185,13 @@ func genCase(t *rapid.T) Case {
 				s.Body = genUserControlBody(t)
 			case 5:
 				s.Body = rtmpx.Fill(4, rapid.Uint64().Draw(t, "wfill"))
+			case 2:
+				// Abort: 4 bytes naming a chunk stream - one that carries no unfinished message (none does here)
+				s.Body = []byte{0, 0, 0, byte(rapid.IntRange(2, 63).Draw(t, "abortcid"))}
+			case 3:
+				s.Body = rtmpx.Fill(4, rapid.Uint64().Draw(t, "ackfill")) // Acknowledgement: sequence number
+			case 6:
+				s.Body = append(rtmpx.Fill(4, rapid.Uint64().Draw(t, "spbfill")), byte(rapid.IntRange(0, 2).Draw(t, "spblimit"))) // Set Peer Bandwidth
 			default:
 				max := budget
 				if max < 1 {
